@@ -364,7 +364,11 @@ func queueFullScenario() func() func() []string {
 
 func managerScenarios(thorough bool) []*scenario {
 	var r []*scenario
-	r = append(r, &scenario{name: "manager/queue-full-12-requests+interrupt", bounds: []int{0, 1}, body: queueFullScenario(), steps: 50000})
+	qfBounds := []int{0, 1}
+	if thorough {
+		qfBounds = []int{0, 1, 2}
+	}
+	r = append(r, &scenario{name: "manager/queue-full-12-requests+interrupt", bounds: qfBounds, body: queueFullScenario(), steps: 50000})
 	configs := []mgrConfig{
 		{script: []string{"deliver"}, concurrent: 1, requests: 1},
 		{script: []string{"deliver"}, concurrent: 1, requests: 1, abort: true},
